@@ -2,7 +2,7 @@ SETUP_CMD = "true"
 NOTES = "Contract-based deductive verification of fast/fastrace. See DESIGN.md. bin/check <id> cuts the real functions out of /repo on every run, injects the contracts, and lets Verus discharge every obligation; exit 2 means undecided (lost anchor / unsupported construct / resource limit), never a violation."
 WIP = "not yet under contract in this revision of /verif (work in progress; see DESIGN.md §10 order of work)"
 NOT_APPLICABLE = {
-    'C02': WIP, 'C05': WIP, 'C07': WIP, 'C11': WIP, 'C12': WIP, 'C13': WIP, 'C14': WIP, 'C16': WIP, 'C19': WIP,
+    'C02': WIP, 'C05': WIP, 'C07': WIP, 'C11': WIP, 'C13': WIP, 'C14': WIP, 'C16': WIP, 'C19': WIP,
     'C15': "proc-macro output equivalence is translation validation, outside contract-based deductive verification: neither Verus nor Kani can take syn/quote code and no contract on gen_block can express 'the expansion behaves like the original' (DESIGN.md §6 C15)",
 }
 _T = "contract-based deductive verification (Verus) of functions extracted mechanically from /repo"
@@ -21,6 +21,8 @@ CHECK_NOTES = {
          'note': "'return immediately' is proved as termination + no lock, not as a latency bound."},
  'C10': {'text': "all functions of span_queue.rs, local_span_line.rs, local_span_stack.rs under full-state contracts; composition lemmas: enter/exit of a local span and register/unregister of a scope restore the context exactly, for any nesting depth.",
          'note': "assumes next_id() != 0 and Instant::now() != ZERO; guards being !Send is type-level."},
+ 'C12': {'text': "decode_w3c_traceparent proved to return Some iff there are exactly four dash-separated fields, the first is 00 and the three others are hex numbers that fit 128/64/8 bits, with the ids and (flags & 1) taken from them; encode proved to use the fixed 00-32-16-2 layout; round trip and length 55 as a Verus theorem over the two contracts -- for all inputs.",
+         'note': "The numeric text codec itself is std's (split, from_str_radix, format!) and is ASSUMED via three uninterpreted functions and two axioms; from_str_radix also accepts a leading '+', which the statement's wording does not mention. Display/FromStr/serde impls are not covered."},
  'C17': {'text': "to_span_records and the collector path are proved equal to the same oracle (post_recs of one collection); copies under two parents differ only in trace id and root parent ids.",
          'note': "identical up to the clock anchor (proved per anchor). push_child_spans API layer not yet under contract."},
  'C18': {'text': "duration = saturating difference of converted instants, open spans end at collection time, events carry their instant -- proved on amend_span/amend_local_span.",
